@@ -1,4 +1,5 @@
 import Tickit.Model.LifeOps
+import Tickit.Model.LifeTop
 import Tickit.Proof.LifeCopy
 import Tickit.Proof.LifeStep
 import Tickit.Proof.LifePens
@@ -380,6 +381,97 @@ theorem root_destroy_leaks_requests_counterexample :
 /-- After it, the same history releases everything. -/
 example : leftAfter extracted
     [.newTerm 10 20 false, .win 0 ⟨1, 1, 5, 10⟩ 0, .act (.ref 1), .act (.restack .raise 1), .act (.unref 0), .«end»] = false := by
+  decide +kernel
+
+
+/-! ## the process-wide list of SIGWINCH observers (`tickit_term_observe_sigwinch`, src/term.c) and
+  `tickit_term_set_input_fd` — model layer `Model/LifeTop.lean`
+
+  The list is modelled with its pointers.  The general statement (`sigwinch_list_safe`) is open; what is proved
+  here are the two kernel-checked counterexamples of the unrepaired code (known finding `sigwinch_stale_next`), that
+  the same histories are harmless once the unlinked terminal's link is reset
+  (fixes/C08_sigwinch_stale_next.patch), and the case the seeded regression `while -> if` breaks: a terminal that
+  stands third in the list is really unlinked. -/
+
+/-- Three terminals: the main one (0) and two further ones (1, 2), nobody observing. -/
+def sw0 : Top := { xterms := #[{}, {}], sw := #[{}, {}, {}] }
+
+def tcOld : TCfg := { base := extracted, sigwinchClearsNext := false }
+def tcNew : TCfg := { base := extracted, sigwinchClearsNext := true }
+
+/-- `xobs 0 1; xobs 1 1; xobs 0 0; xunref 1; xobs 0 1; winch`: the first terminal observes again with its stale link
+    to the second one, which has been freed meanwhile. -/
+def swHistoryFreed (tc : TCfg) : Top :=
+  swSignal (swObserve (xUnref tc (swUnobserve tc (swObserve (swObserve sw0 1) 2) 1) 1) 1)
+
+/-- `tobs 1; xobs 0 1; tobs 0; tobs 1; winch`: the main terminal observes again while the terminal its stale link
+    names is still listed — the list is a cycle. -/
+def swHistoryCycle (tc : TCfg) : Top :=
+  swSignal (swObserve (swUnobserve tc (swObserve (swObserve sw0 0) 1) 0) 0)
+
+/-- Unrepaired: the signal handler writes into a freed terminal. -/
+theorem sigwinch_stale_next_freed_counterexample : (swHistoryFreed tcOld).fail = some failMem := by decide +kernel
+
+/-- Unrepaired: the signal handler never returns. -/
+theorem sigwinch_stale_next_cycle_counterexample : (swHistoryCycle tcOld).fail = some failHang := by decide +kernel
+
+/-- With the link reset when a terminal leaves the list, both histories are harmless and the list is what it should be. -/
+theorem sigwinch_stale_next_repaired :
+    (swHistoryFreed tcNew).fail = none ∧ (swHistoryFreed tcNew).swFirst = some 1 ∧ ((swHistoryFreed tcNew).sw.map (·.next)) = #[none, none, none] ∧
+    (swHistoryCycle tcNew).fail = none ∧ (swHistoryCycle tcNew).swFirst = some 1 ∧ ((swHistoryCycle tcNew).sw.map (·.next)) = #[none, some 0, none] := by
+  decide +kernel
+
+/-- The third observer leaves: the list keeps the first two, the handler stays installed, the terminal that left is
+    not reachable (in both configurations). -/
+theorem sigwinch_third_observer_unlinked (clears : Bool) :
+    let t := xUnref { base := extracted, sigwinchClearsNext := clears } (swObserve (swObserve (swObserve sw0 0) 1) 2) 1
+    t.fail = none ∧ t.swFirst = some 0 ∧ (swNode t 0).next = some 1 ∧ (swNode t 1).next = none ∧ t.swHandler = true ∧
+    (swSignal t).fail = none := by
+  cases clears <;> decide +kernel
+
+/-- OPEN (statement only): in the repaired configuration every history of observe / stop observing / destroy / SIGWINCH
+    over any number of terminals keeps the list a duplicate-free chain of exactly the live observing terminals, so no
+    walk fails.  Missing: the invariant (chain of `next` links from `swFirst` = the observers, links of the others
+    `none`) carried through `swAppend` / `swUnlink`; covered by correspondence (generator family `sigwinch`, and the
+    small-scope enumeration of the thorough tier). -/
+def sigwinch_list_safe : Prop :=
+  ∀ (tc : TCfg), tc.sigwinchClearsNext = true → ∀ (n : Nat) (ops : List (Nat × Nat)),
+    let run := ops.foldl (fun (t : Top) (o : Nat × Nat) =>
+      if t.fail.isSome then t
+      else match o.1 with
+        | 0 => swObserve t (o.2 + 1)
+        | 1 => swUnobserve tc t (o.2 + 1)
+        | 2 => if heldX t o.2 then xUnref tc t o.2 else t
+        | _ => swSignal t)
+      ({ xterms := Array.replicate n {}, sw := Array.replicate (n + 1) {} } : Top)
+    run.fail = none
+
+/-- `tickit_term_set_input_fd` on a terminal that has its TermKey: the unrepaired code uses the TermKey it has
+    destroyed (known finding `set_input_fd_termkey`), whatever the state. -/
+theorem set_input_fd_uses_destroyed_termkey (tc : TCfg) (top : Top) (h : tc.setInputFdClearsTermkey = false)
+    (ht : heldT top.st = true) (hf : top.hasFd = true) :
+    ∃ what, xstepCore tc top .tsetin = .ub .mem what := by
+  refine ⟨"tickit_term_set_input_fd: get_termkey() uses the TermKey that has just been destroyed", ?_⟩
+  unfold xstepCore
+  simp [ht, hf, h]
+
+/-- With fixes/C08_set_input_fd_termkey.patch the call succeeds, whatever the state. -/
+theorem set_input_fd_repaired (tc : TCfg) (top : Top) (h : tc.setInputFdClearsTermkey = true) :
+    ∃ t r, xstepCore tc top .tsetin = .ok (t, r) := by
+  unfold xstepCore
+  by_cases hs : (!heldT top.st || !top.hasFd) = true
+  · exact ⟨top, "skip", by simp only [hs]; rfl⟩
+  · exact ⟨_, _, by simp only [hs, h]; rfl⟩
+
+/-! ## `tickit_mockterm_resize` keeps what lies inside both sizes and blanks the rest -/
+
+theorem mock_resize_cells (t : RBFlush.MockTerm) (lines cols l c : Int) :
+    (mockResize t lines cols).lines = lines ∧ (mockResize t lines cols).cols = cols ∧
+    (mockResize t lines cols).cells l c =
+      (if 0 ≤ l ∧ l < t.lines ∧ l < lines ∧ 0 ≤ c ∧ c < t.cols ∧ c < cols then t.cells l c else {}) := by
+  simp [mockResize]
+
+example : ((mockResize ((RBFlush.MockTerm.new 6 10).goto 5 0 |>.print [0x61, 0x62]) 3 20).cells 2 0).str = some [0x20] := by
   decide +kernel
 
 end Tickit.Props.C08
